@@ -545,8 +545,7 @@ def run(sc: Dict[str, Any], cache: Optional[Dict[str, Any]] = None) -> Dict[str,
         for p in m.parameters():
             p.grad = None
         after = [r_["layer"].weight.detach() for r_ in recs.values() if r_["kind"] in ("conv", "lin")]
-        if any(not torch.equal(a_, b_) for a_, b_ in zip(before, after)):
-            wver += 1
+        wver += 1               # number of SGD steps (a step whose gradients vanish leaves the weights as they are)
         if all_params:          # the coefficients moved: what the quantisers hold now is read back
             for n_ in recs:
                 lay_ = recs[n_]["layer"]
